@@ -6,7 +6,8 @@ from fv.props import util
 RULE = ("trees of generated programs (both standards; comments dropped / kept / directives processed; cpp lines and unresolved "
         "INCLUDE lines inserted) and of their re-parse (C01): every node object occurs once; parent == container (through nested "
         "tuples/lists); root has no parent; get_root() is the root from every node; walk() == independent pre-order of children; "
-        "statement leaves print in the order of the regenerated source. non-trivial = tree has >= 50 nodes")
+        "statement leaves print in the order of the regenerated source. non-trivial = tree has >= 50 nodes"
+        " Correspondence: on every third program the tree model Fp.Tree replays the recorded _set_parent / Base.__init__ events and its parent map, walk(), get_root() and get_child() are compared with the real tree's, node for node.")
 ASSUMPTIONS = ["string-level nodes: freshness of construction events is checked on observed trees, not proved"]
 TIE_MODULES = ["FparserModel.Tree"]
 
@@ -69,6 +70,11 @@ def run_case(case):
     res["nontrivial"] = n >= 50
     res["counts"]["nodes"] = n
     res["sample"] = {"seed": case["seed"], "mode": mode, "nodes": n}
+    if case["seed"] % 3 == 0:
+        fs, info = util.tree_cosim(src, std=std, case=case)
+        res["findings"] += fs
+        res["counts"]["tree-cosim"] = 1
+        res["counts"]["tree-nodes-tied"] = info.get("nodes", 0)
     s1 = str(o.tree)
     o2 = real.try_parse(s1, std=std, ignore_comments=(mode == "drop"), process_directives=(mode == "directives"), free=True)
     if o2.kind == "tree":
